@@ -74,3 +74,36 @@ CHECKS["C02"] = {
     "text": "quick: 20k trees (all depth<=2 trees over 10 numeric / 2 logical leaf kinds incl. signed literals, kind-suffixed literals, array/structure accesses and intrinsic calls; all depth-3 trees over reduced leaf sets); thorough: 258k trees incl. depth-4 spines. Each written expression must be standard conforming and re-read to a structurally equal tree.",
     "note": "A signed Literal is identified with MINUS(literal) after the round trip (weaker than the text). Only syntax/conformance diagnostics of gfortran count (constant-folding errors such as division by zero are ignored). Open findings: signed literals not parenthesised; unary left operand of * / ** not parenthesised. Fixed: (a**b)**c.",
 }
+
+CHECKS["C15"] = {
+    "level": "model_checking",
+    "technique": "bounded exhaustive enumeration of edit histories over (original subtree, copy) pairs of real PSyIR trees; reflective object-graph oracle at copy time, written-code invariance of the unedited side after every edit",
+    "text": "For every node of 11 seed programs (kinds, array bounds, initial values, imports, generic interfaces, nested/shadowing scopes, loops, OpenMP directives before and after lowering, derived types, multi-unit files) the copy must be equal (PSyIR == and an independent shape dump), well-formed, share no node/table/symbol entry, and every use of a symbol declared inside the copied scopes must be the copy's own symbol; after every sequence of <=2 (quick, 166k sequences) / <=3 (thorough, 3.1M) public-API edits on either side the written code of the other side must be byte-identical.",
+    "note": "Symbols of enclosing, not-copied scopes are shared by design and never edited. Depth-3 sequences only over the 10 core edit operators. Open finding: copies keep the original's symbols inside datatypes / initial values / literal precision (repair ~140 lines, not small). Fixed: shared interface objects, function copies never equal.",
+}
+CHECKS["C10"] = {
+    "level": "model_checking",
+    "technique": "explicit-state BFS over operation histories replayed on fresh real PSyIR trees, de-duplicated on view()+writer text; gfortran two-pass (syntax + full compile) batch oracle and an independent line-based directive-structure checker on every state",
+    "text": "All histories of length <=2 over the full OpenMP or OpenACC transformation alphabet (17 transformations, every loop / child range / directive target, collapse and clause variants) and <=3 over an 11-operation core alphabet on 6 seed routines (quick: 10.7k states, 29k transitions); at every state FortranWriter must either refuse or emit text that gfortran -fopenmp -fopenacc accepts and whose directive structure is valid (worksharing inside parallel, no nested parallel, collapse(n) over n perfectly nested loops, matched begin/end).",
+    "note": "Dependence analysis is switched off (force) because structure, not dependences, is this property's subject; OpenMP and OpenACC alphabets are never mixed; gfortran 'not supported yet' diagnostics are not counted. Fixed: collapse over imperfect nests, acc loop not on a loop, nested OpenACC compute constructs, enclosed acc routine. Open: target/do inside omp loop, omp do closely nested in omp do.",
+}
+
+CHECKS["C11"] = {
+    "level": "model_checking",
+    "technique": "bounded exhaustive enumeration of statement forms x operand shapes x all small inputs; the real VariablesAccessInfo of every statement and enclosing node is compared with the access trace of the E1 reference interpreter (callee bodies executed, intrinsic-subroutine effects from a table of the standard's argument intents)",
+    "text": "2.3k (quick) / 27.9k (thorough) programs: assignments with nested expressions, computed subscripts, structure members and sections, loops, IF conditions, calls to same-file routines with every intent combination, intrinsic subroutines, allocate/deallocate, inquiry intrinsics. Required: actual reads are reported READ/READWRITE, actual writes WRITE/READWRITE (Signature level), and in an assignment every reported rhs read precedes the reported write of the target. Over-reporting is never judged.",
+    "note": "Weaker reading: allocation-status changes and callee side effects on module variables are not judged; character arguments, elemental calls on arrays and WHERE are not enumerated. Open finding: arguments of PURE subroutines reported READ only (an existing test relies on it). Fixed: inquiry-argument subscripts, IntrinsicCall output arguments.",
+}
+
+CHECKS["C12"] = {
+    "level": "model_checking",
+    "technique": "exhaustive enumeration of small straight-line programs and of all their consecutive statement regions; real CallTreeUtils / ExtractTrans / ExtractNode lowering; oracle = E1 reference interpreter run under a save / poison / replay / restore region protocol with a read-write tracer; E1 bound to gfortran on the corpus",
+    "text": "quick: 844 programs = 5.7k statement regions (top-level and nested) x 6 inputs; thorough: 8,250 programs = 67.7k regions. Each region is analysed by the real get_in_out_parameters and by ExtractTrans+ExtractNode (lists read from the generated ProvideVariable calls) and executed by E1: upward-exposed reads must be inputs, written variables outputs, and a replay from a store holding only the reported inputs must reproduce every value the region wrote.",
+    "note": "Compared by variable name; only locations the region wrote are compared in the replay. Inputs are 6 vectors steering every branch and 0..3 loop trips; arrays have extent 5. Open finding: is_written_first is per variable (partially / conditionally written variables are dropped from the inputs).",
+}
+CHECKS["C13"] = {
+    "level": "model_checking",
+    "technique": "exhaustive enumeration of small programs x compute placements x data-region ranges; real ACCKernelsTrans / ACCLoopTrans / ACCParallelTrans / ACCDataTrans / FortranWriter; oracle = E1 reference interpreter with a host and a device store driven by the directive hook, compared with the one-store run; independent needed-clause computation executed as a self-check for every violation",
+    "text": "quick: 763 programs x 3 compute placements (kernels per statement, kernels per maximal run, parallel+loop) x every consecutive range of top-level statements = 6.7k data regions x 6 inputs; thorough: 5,474 programs = 62.6k regions. Each accepted ACCDataTrans region is executed with separate device copies under exactly the copyin/copyout/copy clauses the FortranWriter prints; final host arrays must equal the host run.",
+    "note": "Scalars are outside the claim. Regions in which a host statement and a compute construct share an array (one writing it) need update directives and are counted, not judged. Open findings: partially written arrays in copyout; arrays only touched by host statements of the region placed in copyout/copy.",
+}
